@@ -186,6 +186,7 @@ func checkC17(cx *Ctx, r *Report) {
 	}
 	// parse calls use the constants, no FuncMap, no bypass types
 	nParse := 0
+	parsedConst := map[string]bool{}
 	for _, fn := range w.Funcs {
 		for _, b := range fn.Blocks {
 			for _, in := range b.Instrs {
@@ -202,11 +203,24 @@ func checkC17(cx *Ctx, r *Report) {
 				case "(*html/template.Template).Funcs":
 					r.Fail("R-TPL", "funcs:"+w.FuncKey(fn), w.InstrPos(c), "a FuncMap is attached to a template: substituted values can pass through functions that defeat contextual escaping")
 				case "(*html/template.Template).Parse":
-					nParse++
-					txt, isC := constString(c.Common().Args[1])
 					pt, _ := w.pkgConst("provider", "postTemplate")
 					lt, _ := w.pkgConst("provider", "logoutTemplate")
-					r.Check(isC && (txt == pt || txt == lt), "R-TPL", "parse:"+w.InstrPos(c), w.InstrPos(c), "parses one of the two checked constants", "a template is parsed from text other than the two checked constants")
+					// the text: a constant, or the parameter of a helper that every caller gives one of the constants
+					texts := []ssa.Value{c.Common().Args[1]}
+					if par, isP := c.Common().Args[1].(*ssa.Parameter); isP && len(cx.Fx.argsOf[par]) > 0 {
+						texts = cx.Fx.argsOf[par]
+					}
+					okTxt := true
+					for _, tv := range texts {
+						txt, isC := constString(tv)
+						if !isC || (txt != pt && txt != lt) {
+							okTxt = false
+						} else {
+							parsedConst[txt] = true
+						}
+					}
+					nParse = len(parsedConst)
+					r.Check(okTxt, "R-TPL", "parse:"+w.InstrPos(c), w.InstrPos(c), "parses one of the two checked constants", "a template is parsed from text other than the two checked constants")
 				case "(*html/template.Template).Execute":
 					data := c.Common().Args[2]
 					okT := false
